@@ -921,7 +921,9 @@ impl ErasedNode for Node {
             tracing::debug_span!("adjust_heights_bind_lhs_change").in_scope(|| {
                 let all = bind.all_nodes_created_on_rhs.borrow();
                 for rnode_weak in all.iter() {
-                    let rnode = rnode_weak.upgrade().unwrap();
+                    let Some(rnode) = rnode_weak.upgrade() else {
+                        continue;
+                    };
                     tracing::debug!("all_nodes_created_on_rhs: {:?}", rnode);
                     if rnode.is_necessary() {
                         ahh.ensure_height_requirement(oc, op, &self.packed(), &rnode)
